@@ -2,12 +2,14 @@ use crate::{Args, events::Log};
 pub mod c03;
 pub mod padding;
 pub mod mux;
+pub mod wirepath;
 
 pub fn run(args: &Args, log: &Log) -> Result<(), String> {
     match args.driver.as_str() {
         "c03" => c03::run(args, log),
         "padding" => padding::run(args, log),
         "mux" => mux::run(args, log),
+        "wirepath" => wirepath::run(args, log),
         d => Err(format!("unknown driver {d}")),
     }
 }
